@@ -90,6 +90,14 @@ func (s *MemoryStore) Rollback() error {
 	return nil
 }
 
+// memoryStoreKey is the map key of a child node: the TLV encoding of the component.
+// Component.String() must not be used here, it is not injective (a numeric component
+// prints the same in shortest and non-shortest form, e.g. v=5 for values 05 and 00 05),
+// which made two different names share one node.
+func memoryStoreKey(c enc.Component) string {
+	return string(c.Bytes())
+}
+
 func (n *memoryStoreNode) find(name enc.Name) *memoryStoreNode {
 	if len(name) == 0 {
 		return n
@@ -99,7 +107,7 @@ func (n *memoryStoreNode) find(name enc.Name) *memoryStoreNode {
 		return nil
 	}
 
-	key := name[0].String()
+	key := memoryStoreKey(name[0])
 	if child := n.children[key]; child != nil {
 		return child.find(name[1:])
 	} else {
@@ -130,7 +138,7 @@ func (n *memoryStoreNode) insert(name enc.Name, version uint64, wire []byte) {
 		n.children = make(map[string]*memoryStoreNode)
 	}
 
-	key := name[0].String()
+	key := memoryStoreKey(name[0])
 	if child := n.children[key]; child != nil {
 		child.insert(name[1:], version, wire)
 	} else {
@@ -155,7 +163,7 @@ func (n *memoryStoreNode) remove(name enc.Name, prefix bool) bool {
 		return false
 	}
 
-	key := name[0].String()
+	key := memoryStoreKey(name[0])
 	if child := n.children[key]; child != nil {
 		prune := child.remove(name[1:], prefix)
 		if prune {
